@@ -122,4 +122,12 @@ PROPS = {
                                         'the aggregated random-seed signature of verified shares verifies (key manager contract; the model\'s seed flag of the callback is true)',
                                         'the peer is configured with the same instance id and committee; total weight < 2^64; the committer is a member of the committee'],
     },
+    'C04': {
+        'engines': [{'name': 'world', 'quick_args': ['-n', '60'], 'thorough_args': ['-n', '1200']}],
+        'corr_modules': ['Term'],
+        'trusted_base': ['theorems in coq/props/C04.v about coq/theories/World.v (proofs in World.v, Own.v, TermFacts.v)'],
+        'assumptions': COMMON_ASSUME + ['unforgeability discipline, common committee and instance, Byzantine weight <= f (as C01); no hypothesis about standalone PREPREPAREs',
+                                        'a block is identified by the hash the consumer\'s ValidateBlockProposal / ValidateBlockCommitment bind (two blocks with one hash are the consumer\'s collision)',
+                                        'the model\'s validProposal is the harness consumer: rejects the blocks listed as bad for this member, checks height and hash'],
+    },
 }
